@@ -321,9 +321,12 @@ PAR_CONSUMER = re.compile(r"^(rayon::iter::(ParallelIterator|IndexedParallelIter
                           r"rayon_core::(join::join|spawn::spawn|scope::|broadcast::))")
 SHARED_WRITE = re.compile(r"(sync::(poison::)?(mutex::)?Mutex|sync::(poison::)?(rwlock::)?RwLock|cell::RefCell|cell::Cell|sync::mpsc|"
                           r"sync::atomic|parking_lot|crossbeam|dashmap|once_cell|OnceLock|OnceCell)")
-SHARED_WRITE_NAMES = {"lock", "try_lock", "write", "try_write", "borrow_mut", "send", "try_send", "set", "replace", "store", "swap",
-                      "fetch_add", "fetch_sub", "fetch_or", "fetch_and", "fetch_max", "fetch_min", "compare_exchange", "get_or_init",
-                      "insert", "entry", "get_mut"}
+SHARED_WRITE_NAMES = {"lock", "try_lock", "write", "try_write", "borrow_mut", "get_mut", "send", "try_send", "replace", "swap",
+                      "fetch_add", "fetch_sub", "compare_exchange", "compare_exchange_weak", "fetch_update"}
+# what a lock protects decides whether the order of the writes can be observed: a sorted or hashed set / map cannot record it
+# (iteration over the hashed ones is R12.1's business), a sequence, an insertion-ordered map or a plain value can
+ORDER_FREE_PAYLOAD = re.compile(r"(Mutex|RwLock|RefCell)<(std::collections::|alloc::collections::btree::|hashbrown::|"
+                                r"cairo_lang_utils::unordered_hash_(map|set)::)?(HashSet|HashMap|BTreeSet|BTreeMap|UnorderedHashSet|UnorderedHashMap)<")
 # parallel regions whose shared writes do not reach a compilation artefact: root function -> reason
 PAR_EXEMPT = {
     "cairo_lang_test_runner::run_tests": "the test runner executes already compiled tests and reports outcomes through a channel; "
@@ -337,7 +340,9 @@ def _parallel_bodies(ctx, F):
     shared state - under a lock, through a RefCell / atomic / channel - arrives in completion order, i.e. depends on the number
     of worker threads and on the schedule (seed C12-5: contract classes pushed into a Mutex<Vec> from try_for_each).  So a
     closure handed to a rayon consumer / join / spawn / scope, and the closures nested in it, contain no call of a writing
-    method of a shared-state primitive.  (Memoised salsa queries are the sanctioned shared state: they are functions of their
+    method of a shared-state primitive: taking a lock / a mutable borrow whose payload can record an order (anything but a
+    hashed or sorted set / map), a channel send, or an atomic read-modify-write that returns the previous value (a counter
+    handing out numbers).  Flag-like atomics (store, fetch_or / and / max / min) and once-cells are not counted.  (Memoised salsa queries are the sanctioned shared state: they are functions of their
     keys - clause (c).)  Regions outside compilation are exempted by name with a reason."""
     import re as _re
     n = 0
@@ -364,8 +369,15 @@ def _parallel_bodies(ctx, F):
                 n += 1
                 ctx.analysed(g)
                 body = [g] + [h for h in F.fns.values() if h.path.startswith(g.path + "::{closure")]
-                hits = [(h, x) for h in body for x in h.calls()
-                        if x.name() in SHARED_WRITE_NAMES and SHARED_WRITE.search(x.path + " " + x.via)]
+                hits = []
+                for h in body:
+                    for x in h.calls():
+                        if x.name() in SHARED_WRITE_NAMES and SHARED_WRITE.search(x.path + " " + x.via):
+                            rl = op_local(x.args[0]) if x.args else None
+                            rty = h.local_ty(rl) if rl is not None else ""
+                            if ORDER_FREE_PAYLOAD.search(rty):
+                                continue
+                            hits.append((h, x))
                 ok = not hits
                 msg = "the body handed to %s writes no shared state" % last_seg(c.path)
                 if hits:
